@@ -450,6 +450,40 @@ def request_deps(ctx):
                   f"root targets are requested for {sorted(kinds)} only", props=["C04"])
 
 
+@rule("C04.MESSAGE-IDENTITY", ["C04", "C01", "C06"], """an acknowledgement or an out-of-date notice names its sender: the `target_id` of every Ok / Invalidated an actor builds is the actor's own
+      id (the helper's `target_id`), and the requester named in a Requested / Unrequested sent to a dependency is the actor itself - receivers key their pending sets on it""", "K5", floor=4)
+def message_identity(ctx):
+    r = ctx.r
+    n = 0
+    for variant in ("Ok", "Invalidated"):
+        for (b, sites) in r.bodies_constructing("ActorInputMessage", variant):
+            for (bb, st) in sites:
+                op = agg_field_op(st, "target_id")
+                if op is None:
+                    continue
+                n += 1
+                at = b.prov.operand_atoms(op, interproc=False)
+                own = atom_has_field(at, "target_id", "TargetActorHelper")
+                foreign = atom_has_field(at, "dependencies", "TargetActorHelper") or any(a[0] == "field" and path_ends(a[1], "ActorInputMessage") for a in at) or \
+                    atom_has_field(at, "unavailable_dependencies", "TargetActorHelper")
+                ctx.check(own and not foreign, f"{short(b.name)}/{variant}@{[s_[0] for s_ in sites].index(bb)}", [site(b, bb)],
+                          f"an {variant} message does not carry the sender's own target id: the receiver updates the pending entry of another target (or of none) and waits forever",
+                          props=["C04", "C01"] if variant == "Ok" else ["C04", "C06"])
+    for variant in ("Requested", "Unrequested"):
+        for (b, sites) in r.bodies_constructing("ActorInputMessage", variant):
+            if b not in r.helper_methods():
+                continue
+            for (bb, st) in sites:
+                op = agg_field_op(st, "requester")
+                if op is None:
+                    continue
+                n += 1
+                at = b.prov.operand_atoms(op, interproc=False)
+                ctx.check(atom_has_field(at, "target_id", "TargetActorHelper") and "Target" in atom_aggs(at, "ActorId"), f"{short(b.name)}/{variant}@{[s_[0] for s_ in sites].index(bb)}", [site(b, bb)],
+                          f"a {variant} sent to a dependency does not name the sending actor as requester: the dependency's answer goes elsewhere", props=["C04"])
+    ctx.need(n >= 4, "constructions of protocol messages carrying an identity")
+
+
 @rule("C04.START-LIVE", ["C04", "C06"], """a start site runs whenever the readiness predicate holds (and no build is in flight): no further condition guards it, otherwise a ready
       target may never start and its requesters wait forever""", "K1", floor=2)
 def start_live(ctx):
